@@ -23,6 +23,9 @@ All arguments are `key=value` tokens.  Histories (`hist=`, `dhist=`) are comma s
 `chunk.life secs= ypos= mdl= from=<hist|hand> hist= rounds= | S=<sections> post=` `=> ok L= P= n= len= wd= rn= left= Q= T=`
    (a chunk loaded from the save form — the library's own, once or twice, or a hand-built one with one-entry palettes
    and no data —, its sections L, after the `post` history P, read back from the wire Q, saved and loaded again T)
+`chunk.reread secs= reads=<k> mdl= h1= … hk= post=` `=> ok R= P= n= len= wd= rn= left= Q=`
+   (the same destination receives k chunks one after the other; R: its sections after the last read; P: after the `post`
+   edits; Q: written and read into a fresh chunk)
 `light.rt used= extra= sky=<hex longs> blk= sl=<len:a:m;…> bl=` `=> ok n= len= rn= left= sky= blk= sl= bl=`
 `save.hm secs= k= longs= => ok | err`   (ChunkFromSave of an empty chunk whose height map k has that many longs; -1 = key absent)
 `be.pack <x> <z> => ok <hex2> | no <hex2>`        `be.unpack <hex2> => <x> <z>`
@@ -528,6 +531,42 @@ def life (args : List String) : Option String := do
   | .err => pure "err@fromsave"
   | .panic => pure "panic"
 
+/-- the model's observation for a `chunk.reread` line -/
+def reread (args : List String) : Option String := do
+  let x ← ctxOf args
+  let secs ← (← kv args "secs").toNat?
+  let reads ← (← kv args "reads").toNat?
+  let post ← parseHist ((kv args "post").getD "-")
+  let hists ← (List.range reads).mapM fun k => parseHist ((kv args s!"h{k + 1}").getD "-")
+  let step (acc : Res MChunk) (h : List Op) : Res MChunk :=
+    match acc, build x secs h with
+    | .ok d, .ok src =>
+      match Model.Chunk.Chunk.readFrom x.gbS x.gbB d (Stream.ofBytes (src.writeTo x.gbS x.gbB).1) with
+      | (.ok (d', _), s') => if s'.flat.isEmpty then .ok d' else .err
+      | (.err, _) => .err
+      | (.panic, _) => .panic
+    | .ok _, _ => .panic
+    | e, _ => e
+  match hists.foldl step (build x secs []) with
+  | .ok dst =>
+    let rObs ← secsObs x dst false false
+    match run x dst post with
+    | .ok d2 =>
+      let p ← secsObs x d2 false false
+      let w := d2.writeTo x.gbS x.gbB
+      match build x secs [] with
+      | .ok fresh =>
+        match Model.Chunk.Chunk.readFrom x.gbS x.gbB fresh (Stream.ofBytes w.1) with
+        | (.ok (d3, rn), s') =>
+          let q ← secsObs x d3 false false
+          pure s!"ok R={rObs} P={p} n={w.2} len={w.1.length} wd={digestBytes (w.1.toArray.map BitVec.toNat)} rn={rn} left={s'.flat.length} Q={q}"
+        | (.err, s') => pure s!"ok R={rObs} P={p} rerr left={s'.flat.length}"
+        | (.panic, _) => pure "panic"
+      | _ => pure "panic"
+    | _ => pure "panic"
+  | .err => pure "err@read"
+  | .panic => pure "panic"
+
 end M
 
 /-! ### chunk.wire -/
@@ -613,6 +652,33 @@ def lifeV (args : List String) (obs : String) : Verdict :=
       spec := if obs == want then none else some ("a loaded chunk's counters / contents: " ++ firstDiff want obs) }
   | _, _ => { model := "bad-arg" }
 
+/-! ### chunk.reread: a destination that is read into repeatedly holds exactly the last content and can be edited -/
+
+def rereadV (args : List String) (obs : String) : Verdict :=
+  let withModel := (kv args "mdl") != some "0"
+  let toks := obs.splitOn " "
+  let spec : Option (String × String) := do
+    let secs ← (← kv args "secs").toNat?
+    let reg ← (← kv args "reg").toNat?
+    let nb ← (← kv args "nb").toNat?
+    let air ← parseAir (← kv args "air")
+    let reads ← (← kv args "reads").toNat?
+    let env : Env := { reg, nb }
+    -- whatever the destination received before, it holds the LAST content
+    let last ← parseHist ((kv args s!"h{reads}").getD "-")
+    let post ← parseHist ((kv args "post").getD "-")
+    let c0 ← run env (empty secs) last
+    let c1 ← run env c0 post
+    pure (joinSecs (c0.secs.toList.map (secBase air)), joinSecs (c1.secs.toList.map (secBase air)))
+  match spec, (if withModel then M.reread args else some "") with
+  | some (r, p), some model0 =>
+    let nObs := (kv toks "len").getD "?"
+    let wdObs := (kv toks "wd").getD "?"
+    let want := s!"ok R={r} P={p} n={nObs} len={nObs} wd={wdObs} rn={nObs} left=0 Q={p}"
+    { model := if withModel then model0 else want,
+      spec := if obs == want then none else some ("a chunk read into repeatedly, then edited: " ++ firstDiff want obs) }
+  | _, _ => { model := "bad-arg" }
+
 /-! ### save.hm: a saved height map of the wrong length is an error, never a panic -/
 
 def saveHmV (args : List String) (obs : String) : Verdict :=
@@ -684,6 +750,7 @@ def handle (op : String) (args : List String) (obs : String) : Option Verdict :=
   | "chunk.wire", _ => some (wireV args obs)
   | "chunk.save", _ => some (saveV args obs)
   | "chunk.life", _ => some (lifeV args obs)
+  | "chunk.reread", _ => some (rereadV args obs)
   | "light.rt", _ => some (lightV args obs)
   | "save.hm", _ => some (saveHmV args obs)
   | "be.pack", [x, z] => some (packV x z obs)
